@@ -84,22 +84,20 @@ Proof.
 Qed.
 
 (* size part: what Calculate adds is the encoded size of the witness *)
+Lemma varint_size_66 : varint_size 66 = 1. Proof. reflexivity. Qed.
 Theorem calc_size_exact : forall s verif_len,
   calc_size s verif_len = witness_size (if fst s =? 0 then 66 else 66 * fst s) verif_len.
 Proof.
-  intros [m n] v; unfold calc_size, witness_size, var_bytes_size; cbn [fst snd].
-  destruct (m =? 0); [vm_compute (varint_size 66)|]; lia.
+  intros [m n] v; unfold calc_size, witness_size; cbn [fst snd].
+  destruct (m =? 0).
+  - unfold var_bytes_size at 2. rewrite varint_size_66. reflexivity.
+  - unfold var_bytes_size at 2. generalize (varint_size (66 * m)) (var_bytes_size v). intros; lia.
 Qed.
 
 (* ---------- the gas loop: the sum of the rounded costs is the exact threshold ---------- *)
 Lemma ceil_le_iff : forall c l, c <= l * exec_fee_multiplier <-> pico_to_datoshi c <= l.
 Proof.
-  intros c l. unfold pico_to_datoshi. pose proof multiplier_pos as M.
-  split; intros H.
-  - apply N.div_le_upper_bound; lia.
-  - assert (D := N.div_mod (c + exec_fee_multiplier - 1) exec_fee_multiplier ltac:(lia)).
-    assert (R := N.mod_lt (c + exec_fee_multiplier - 1) exec_fee_multiplier ltac:(lia)).
-    nia.
+  intros c l. unfold pico_to_datoshi, exec_fee_multiplier. split; intros H; lia.
 Qed.
 
 Theorem verify_loop_threshold : forall maxgas ws budget,
@@ -130,6 +128,6 @@ Proof.
   assert (0 < needed_gas ws).
   { destruct ws as [|[c v] ws]; [contradiction|]. inv F. destruct H1 as (_ & Hc & _); simpl in *.
     assert (0 < pico_to_datoshi c); [|lia].
-    unfold pico_to_datoshi. pose proof multiplier_pos. apply N.div_str_pos. lia. }
+    unfold pico_to_datoshi, exec_fee_multiplier. lia. }
   lia.
 Qed.
